@@ -23,6 +23,9 @@ CHECKS["C05"] = dict(cat="proof", design="§3 C05",
 CHECKS["C07"] = dict(cat="proof", design="§3 C07",
     text="All 12 ordered conversions, the from_Matrix entry points and shadow_if_necessary executed symbolically. Direct conversions and the two leaf extractors (4-branch Shepperd on every rotation matrix via both S^3 charts; Euler extraction on canonical angles) are proved per branch cell: same rotation matrix, unit norm / |r|<=1 / orthonormal + det 1 / pitch range, and every denominator or sqrt argument on the selected branch is defined; composite conversions are proved to hand M(X) to the leaf and to return the leaf's output (or from_Quat of it).",
     note="trusted: as C01. Real arithmetic. Euler: exact claim outside the +-(1e-3+1e-9) pitch band only; the 'within band tolerance' clause is not decided. Composite conversions rest on the leaf lemmas (modular).")
+CHECKS["C08"] = dict(cat="proof", design="§3 C08",
+    text="SE23Quat.exp_mixed with the strapdown wiring is executed on symbols; every component of x1 (p, v, q and R(q)) is proved equal to the closed-form flow of p'=v, v'=Ra-g e3, R'=R[w]x for |w|dt in (0,2pi), all axes, all x0 (unit q0 of either sign and arbitrary q0), a, g, dt>0; w=0 and dt=0 exactly; quaternion norm preserved; two-step semigroup law Phi(dt2)oPhi(dt1)=Phi(dt1+dt2) (inductive step for every step sequence); the shipped function strapdown_ins_propagate is proved identical to that group-method step on all branch cells.",
+    note="trusted: as C02 plus the closed form of the flow (Gamma_1, Gamma_2). Real arithmetic. The series-coefficient stubs cannot be applied inside a pre-built ca.Function, so the generated function is tied to the analysed expression by an all-cells equality harness.")
 CHECKS["C04"] = dict(cat="proof", design="§3 C04",
     text="Ad/ad/bracket of every group/algebra executed symbolically; (Ad_X y)^ = M(X) y^ M(X^-1), Ad homomorphism and inverse, ad = bracket = matrix commutator, antisymmetry, Jacobi, block-diagonal direct-sum ad, and Ad_exp(x) = expm(ad_x) in closed form (Rodrigues / Barfoot quartic) are proved per entry; wrong shapes and crashes of offered operations are violations.",
     note="trusted: as C01 plus the closed forms of expm(ad) and the theorem Ad_{exp A} = expm(ad_A) (used for SE_2(3)/Euler where exp ends in from_Matrix). Operations raising NotImplementedError are out of scope as the property states.")
